@@ -443,6 +443,10 @@ pub fn run(tier: &str, rec: &Recorder) -> RunOutput {
 }
 
 pub fn replay(case: &str, rec: &Recorder) -> bool {
+    if case.starts_with("lb:") {
+        let _ = long_batch_stage("thorough", rec);
+        return rec.has_any();
+    }
     if let Some(pc) = parse_case(case) {
         if pc.hist.is_empty() {
             return false;
